@@ -69,3 +69,30 @@ let install_lin register get =
         { o_id = nat_of_int (hx id); o_call = nat_of_int (hx call); o_ret = nat_of_int (hx ret); o_kind = OSize (nat_of_int (hx sz)) }
       | _ -> failwith "op") (split ',' (get kv "h")) in
     "lin=" ^ bool_s (lin_check f0 h))
+
+let install_ties register get =
+  register "servem" (fun kv ->
+    let s = bytes_of_hex (get kv "s") in
+    let dir = str_of_bytes (bytes_of_hex (get kv "dir")) in
+    let (evs, ending) = serve (nat_of_int (List.length s + 2)) serve_fixed s in
+    let made = List.filter_map (fun e -> match e with
+      | Dispatched (PMkdir (_, p, _, _)) ->
+        let ps = str_of_bytes p in
+        let pl = String.length dir + 1 in
+        if String.length ps > pl && String.sub ps 0 pl = dir ^ "/" then Some (String.sub ps pl (String.length ps - pl)) else None
+      | _ -> None) evs in
+    let made = List.sort_uniq compare made in
+    Printf.sprintf "made=%s nil=%s" (if made = [] then "-" else String.concat "," made)
+      (bool_s (match ending with EndEOF -> true | _ -> false)));
+  register "handles" (fun kv ->
+    let ops = split ',' (get kv "ops") in
+    let num s = nat_of_int (int_of_string (String.sub s 1 (String.length s - 1))) in
+    let step (st, fails) o =
+      let op = (match o.[0] with 'o' -> OpenOk | 'f' -> OpenFail true | 'u' -> Use (num o) | _ -> CloseH (num o)) in
+      let (st', failed) = hstep st op in (st', fails ^ bool_s failed) in
+    let (st, fails) = List.fold_left step (h0, "") ops in
+    let (fin, _) = hstep st EndSession in
+    let issued = String.concat "," (List.map (fun h -> string_of_int (int_of_nat h)) st.issued) in
+    (* objects = resources of successful opens, in creation order *)
+    let objs = List.filter_map (fun (h, r) -> if List.mem h st.issued then Some (Printf.sprintf "%d:%d" (int_of_nat r.r_closed) (int_of_nat r.r_xfer)) else None) fin.res0 in
+    Printf.sprintf "issued=%s fails=%s objs=%s" (if issued = "" then "-" else issued) fails (if objs = [] then "-" else String.concat "," objs))
